@@ -10,6 +10,8 @@ import (
 	"time"
 
 	rt "github.com/buildbarn/bb-remote-execution/internal/verifrt"
+	"google.golang.org/grpc/codes"
+	"google.golang.org/grpc/status"
 	"github.com/buildbarn/bb-remote-execution/pkg/proto/buildqueuestate"
 )
 
@@ -222,7 +224,7 @@ func (r *vsRig) perform(o *vsOpts, a vsAct) {
 		rt.Cover("act:advance")
 	case vsActKill:
 		err := r.kill(r.streams[a.a].name)
-		rt.Assert(err == nil, "killing a registered operation succeeds")
+		rt.Assert(err == nil || (r.authRace && status.Code(err) == codes.NotFound), "killing a registered operation succeeds")
 		rt.Cover("act:kill")
 	case vsActAddDrain:
 		_, err := r.bq.AddDrain(context.Background(), r.drainRequest(r.workers[a.a]))
